@@ -32,7 +32,10 @@ pub fn reference_hash(text: &str) -> Option<&str> {
     None
 }
 
-const LINES: [&str; 16] = [
+const LINES: [&str; 19] = [
+    "// @sha256 X  ",
+    "\t// @sha256 X",
+    "// @sha256 X // @sha256 Y",
     "// @sha256 X",
     "// @sha256 ",
     "// @sha256",
